@@ -215,8 +215,9 @@ def prepare_haplotag_information(
                             haplotype_costs[phaseset][hap_index] += v.quality
 
             l = list(haplotype_costs.items())
-            # sort by maximum quality score
-            l.sort(key=lambda t: max(t[1]), reverse=True)
+            # sort by maximum quality score; ties are broken by the phase set id so that the result
+            # does not depend on the iteration order of the set of reads considered
+            l.sort(key=lambda t: (-max(t[1]), t[0]))
             # logger.info('Read %s: %s', read.name, str(l))
 
             if len(l) == 0:
